@@ -43,9 +43,9 @@ type Sched struct {
 	pctChange  []uint64 // global yield counts at which the running client's priority drops
 	pctNextLow int
 
-	tape []Switch             // recorded decisions (both modes)
-	rp   [maxClients][]Switch // replay: decisions per client, in order
-	rpi  [maxClients]int
+	tape    []Switch             // recorded decisions (both modes)
+	rp      [maxClients][]Switch // replay: decisions per client, in order
+	rpi     [maxClients]int
 	rpStart int
 
 	total        uint64
@@ -68,7 +68,12 @@ type Sched struct {
 
 var S Sched
 
+//go:norace
 func (s *Sched) Reset(nsites int) {
+	tp := s.tape
+	if cap(tp) < tapeCap {
+		tp = make([]Switch, 0, tapeCap)
+	}
 	cov := s.cover
 	if len(cov) != (nsites+64)/64 {
 		cov = make([]uint64, (nsites+64)/64)
@@ -79,9 +84,12 @@ func (s *Sched) Reset(nsites int) {
 	s.coverCount = cc
 	s.maxYields = 4 << 20
 	s.sig = fnvOff
+	s.tape = tp[:0]
 }
 
 // LoadTape prepares replay of a recorded tape.
+//
+//go:norace
 func (s *Sched) LoadTape(t []Switch) {
 	s.replay = true
 	s.rpStart = -1
@@ -94,6 +102,23 @@ func (s *Sched) LoadTape(t []Switch) {
 			s.rp[sw.C] = append(s.rp[sw.C], sw)
 		}
 	}
+}
+
+const tapeCap = 1 << 17
+
+// tapeAdd records a decision without append/copy: the runtime helpers behind those builtins carry
+// race-detector annotations of their own, and this code runs in client goroutines whose hand-off
+// must stay invisible to the detector.
+//
+//go:norace
+func (s *Sched) tapeAdd(sw Switch) {
+	n := len(s.tape)
+	if n >= cap(s.tape) {
+		s.overBudget = true
+		return
+	}
+	s.tape = s.tape[:n+1]
+	s.tape[n] = sw
 }
 
 //go:norace
@@ -225,7 +250,7 @@ func (s *Sched) decide(c int, kind string, site uint32, boundary bool) int {
 		next = -1
 	}
 	if next != c {
-		s.tape = append(s.tape, Switch{C: c, K: s.local[c], Next: next, T: kind, Site: site})
+		s.tapeAdd(Switch{C: c, K: s.local[c], Next: next, T: kind, Site: site})
 		s.switches++
 		if s.inOp[c] >= 0 && kind != "f" {
 			s.switchesInOp++
@@ -268,6 +293,8 @@ func (s *Sched) Yield(site uint32) {
 	s.markCover(site)
 	if s.total > s.maxYields {
 		s.overBudget = true
+	}
+	if s.overBudget {
 		return
 	}
 	if next := s.decide(c, "", site, false); next != c && next >= 0 {
@@ -343,6 +370,7 @@ func (s *Sched) finish(c int) {
 	storeTurn(&s.turn, int64(next))
 }
 
+//go:norace
 func (s *Sched) clientMain(c int, body func(c int)) {
 	defer s.wg.Done()
 	s.park(c)
@@ -351,6 +379,8 @@ func (s *Sched) clientMain(c int, body func(c int)) {
 }
 
 // Run executes body(c) for c in [0,n) as serialised client goroutines and returns when all finished.
+//
+//go:norace
 func (s *Sched) Run(n int, body func(c int)) {
 	s.n = n
 	for i := range s.inOp {
@@ -371,7 +401,7 @@ func (s *Sched) Run(n int, body func(c int)) {
 	} else {
 		first = s.rng.Intn(n)
 	}
-	s.tape = append(s.tape, Switch{C: -1, Next: first, T: "s"})
+	s.tapeAdd(Switch{C: -1, Next: first, T: "s"})
 	s.cur = first
 	s.active = true
 	storeTurn(&s.turn, int64(first))
@@ -380,6 +410,8 @@ func (s *Sched) Run(n int, body func(c int)) {
 }
 
 // SetupRandom configures the generation strategy from the run's seed (swarm style).
+//
+//go:norace
 func (s *Sched) SetupRandom(r *RNG, n int, expectYields uint64) string {
 	s.rng = r.Fork(0x5c4ed)
 	switch r.Intn(8) {
